@@ -302,6 +302,42 @@ HOSTILE_SIGS = ['ai' * 16, 'ai' * 30, '(' + 'ay' * 40 + ')', 'a(' + 'ai' * 20 + 
                 '{ss}', 'v' * 200, 'a(' + 'i' * 250 + ')', 'z', 'a~', '()', 'a(v)', 'av', 'a{vv}', 'a{sa{sa{sv}}}', '\x00', 'ai(', 'a)', 'a}']
 
 
+class CountingBytes(bytes):
+    """counts the bytes copied out of a message by slicing (work the interpreter-step count does not see)"""
+    copied = 0
+
+    def __getitem__(self, k):
+        r = bytes.__getitem__(self, k)
+        if isinstance(k, slice):
+            CountingBytes.copied += len(r)
+        return r
+
+
+def copy_cases():
+    """decoding copies each part of a message a bounded number of times: the bytes sliced out of a message with many strings /
+    object paths / dict entries / variants stay proportional to its length"""
+    from txdbus import marshal, message
+    from . import wire_ref as W
+    n = 3000
+    cases = [('as', W.encode('as', [['abc'] * n], 0, True)), ('ao', W.encode('ao', [['/a/b'] * n], 0, True)),
+             ('a{sv}', W.encode('a{sv}', [{'k%d' % i: W.Variant('s', 'vv') for i in range(n)}], 0, True)),
+             ('a(so)', W.encode('a(so)', [[['x', '/p']] * n], 0, True))]
+    for sig, data in cases:
+        CountingBytes.copied = 0
+        try:
+            marshal.unmarshal(sig, CountingBytes(data), 0, True)
+        except Exception as e:
+            return 'unmarshal(%r, %d bytes) raised %s: %s' % (sig, len(data), type(e).__name__, e), {'signature': sig}
+        if CountingBytes.copied > 8 * len(data) + 4096:
+            return 'unmarshal(%r, %d bytes) sliced %d bytes out of the message: copying not proportional to the length' % (sig, len(data), CountingBytes.copied), {'signature': sig, 'bytes': len(data)}
+    raw = message.MethodCallMessage('/a/b', 'M', interface='org.x.Y', signature='asao', body=[['abc'] * n, ['/a/b'] * n]).rawMessage
+    CountingBytes.copied = 0
+    message.parseMessage(CountingBytes(raw), [])
+    if CountingBytes.copied > 8 * len(raw) + 4096:
+        return 'parseMessage(%d bytes) sliced %d bytes out of the message' % (len(raw), CountingBytes.copied), {'bytes': len(raw)}
+    return None, None
+
+
 def growth_cases():
     """'work proportional to its length' as a growth law: for families of hostile messages parameterised by a scale, doubling the
     scale (which doubles the length) may not much more than double the interpreter steps (counts are deterministic)"""
@@ -425,6 +461,21 @@ def retention_case():
     finally:
         tracemalloc.stop()
     total = 3 * sum(len(m) for m in msgs)
+    # ... and nothing of what was rejected changes how the next, valid message (of another peer) is decoded
+    from txdbus import message as _m
+    for _ in range(40):
+        for raw in long_name_cases()[3:60]:
+            try:
+                _m.parseMessage(raw, [])
+            except Exception:
+                pass
+    probe = _m.MethodCallMessage('/a/b', 'Member', interface='org.x.Y', destination='org.x.Z', signature='a{sv}v', body=[{'a': 1, 'b': 'x'}, [1, 2, 3]])
+    try:
+        back = _m.parseMessage(probe.rawMessage, [])
+        if back.body != [{'a': 1, 'b': 'x'}, [1, 2, 3]] or back.member != 'Member':
+            return 'after %d rejected messages a valid message decodes to %r' % (40 * 57, back.body), {'case': 'valid message after a hostile history'}
+    except Exception as e:
+        return 'after %d rejected messages a valid message of another peer is rejected: %s: %s' % (40 * 57, type(e).__name__, e), {'case': 'valid message after a hostile history'}
     if held > 64 * 1024:
         return 'after decoding and dropping %d bytes of messages (unknown header fields with large values among them) %d bytes are still held' % (total, held), {'messages': len(msgs) * 3}
     return None, None
@@ -449,6 +500,10 @@ def bounded_(tier, seed):
         return n, f, inp
     n += 1
     f, inp = retention_case()
+    if f:
+        return n, f, inp
+    n += 1
+    f, inp = copy_cases()
     if f:
         return n, f, inp
     # 1. hostile signatures against hostile data (unmarshal directly, as parseMessage does for the body)
